@@ -29,7 +29,12 @@ Streams
   every stream    : token ids relabelled injectively (35 %) to ids around 2^8, 2^11, 2^15/16, 2^24, 2^31/32,
                     2^53, 2^63 and to negative ids; warn passed False / True / left to its default;
                     memory layout of every tensor argument (contiguous / transposed storage / slice
-                    of a wider buffer / every-other-element stride), int32 and int64 tokens, options
+                    of a wider buffer / every-other-element stride), int32 and int64 tokens;
+                    42 %: ref and hyp in their OWN integer dtypes - every ordered pair over uint8 / int8 /
+                    int16 / int32 / int64, by a schedule - with ids that differ between the two tensors by
+                    a multiple of 2^8 / 2^16 / 2^32 (different tokens that any narrowing or sign
+                    reinterpretation of one tensor merges), the eos among them, and an eos that only
+                    fits one of the two dtypes (_mix_tokens); options
                     passed explicitly or left to the documented defaults, arguments not modified.
   malformed       : wrong shapes / sample counts -> the documented error class (8 fixed calls).
   shapes          : random argument-shape sets vs. the model's checkPairShapes / checkMerShapes
@@ -80,6 +85,12 @@ WIDE_N = [63, 64, 65, 127, 128, 129, 255, 256, 257]
 # 2^11, float32 2^24, float64 2^53); "neg": negative ids (t -> -1 - t).
 TOK_OFFSETS_32 = [254, 2047, 32766, 65534, 2 ** 24 - 2, 2 ** 31 - 48]
 TOK_OFFSETS_64 = [2 ** 31 - 2, 2 ** 32 - 2, 2 ** 53 - 2, 2 ** 63 - 48]
+# token dtypes: the two token tensors of a call need not share their integer dtype (references kept in a
+# compact dtype, int64 hypotheses out of a beam search, ...): (lowest, highest, bits)
+DTYPES = {"uint8": (0, 255, 8), "int8": (-128, 127, 8), "int16": (-2 ** 15, 2 ** 15 - 1, 16),
+          "int32": (-2 ** 31, 2 ** 31 - 1, 32), "int64": (-2 ** 63, 2 ** 63 - 1, 64)}
+# every ORDERED (ref dtype, hyp dtype) pair; visited by a schedule (period 25), not by independent draws
+DTYPE_PAIRS = [(a, b) for a in DTYPES for b in DTYPES]
 DEFAULTS = {"eos": None, "include_eos": True, "norm": True, "batch_first": False, "ins": "1", "del": "1",
             "sub": "1", "padding": -100, "exclude_last": False, "sub_avg": True, "reduction": "mean"}
 
@@ -145,7 +156,14 @@ class C02(PropertyCheck):
             "the reference transcript or random; wide: 12 (thorough 40) batches with N in {63..65, 127..129, "
             "255..257, 1000..1100, 0} (loss: M in {16,17,33,64,65} or N in {33,64,65,129}), R,H <= 4. "
             "every stream: token ids relabelled (35%) by offsets 254, 2047, 32766, 65534, 2^24-2, 2^31-48 "
-            "(int64 also 2^31-2, 2^32-2, 2^53-2, 2^63-48) or t -> -1-t; warn False / True / default. "
+            "(int64 also 2^31-2, 2^32-2, 2^53-2, 2^63-48) or t -> -1-t; warn False / True / default; "
+            "instead of that relabelling, 42% of the cases of every stream (and every 4th chunk of the exhaustive "
+            "sub-grid): ref and hyp dtypes = the next of the 25 ordered pairs over {uint8, int8, int16, int32, "
+            "int64} (schedule), every id mapped to a residue class mod 2^m (m in {8,16,32}, at most the narrower "
+            "width; classes at the bottom / sign boundary / top / wrap point of the m-bit range) and to one "
+            "representative per tensor inside that tensor's dtype range - the same integer (50% when one exists) "
+            "or two different ones (aliased ids: k in {0,+-1,+-2,lowest,highest,middle}); the eos is mapped like "
+            "an id and passed as the ref's or the hyp's representative (may lie outside the other dtype). "
             "non-trivial: some column has both cut sequences non-empty, not identical; distinct by "
             "(cut pairs, costs, option cell, memory layout, log_probs classes)")
     assumptions = [
@@ -164,6 +182,10 @@ class C02(PropertyCheck):
         "(owned by C01) are part of the modelled behaviour for zero-size dimensions; "
         "fixes/C02-mer-strided-inputs.diff for arguments whose batch x sample dimensions cannot be "
         "merged by view()",
+        "fixes/C02-eos-outside-token-dtype.diff (an eos outside the range of a token tensor's dtype matches "
+        "nothing in that tensor) is part of the modelled behaviour; until it is applied the unrepaired "
+        "behaviour is recognised exactly (result == the batch cut at the ids congruent to the eos) and "
+        "reported as the known finding C02.eos_outside_token_dtype_wraps",
     ]
     exhaustive = {"quick": False, "thorough": False}
     quick_budget_s = 75
@@ -239,9 +261,12 @@ class C02(PropertyCheck):
         so that the default value is frequent)"""
         case["mem"] = rng.choice(MEMS)
         case["tok_dtype"] = rng.choice(["int64", "int64", "int32"])
+        case["ref_dtype"] = case["hyp_dtype"] = case["tok_dtype"]
         # warn: passed as False / True, or left to its default (True); warnings are not part of the result
         case["warn"] = rng.choice(["false", "false", "false", "true", "default"])
-        if rng.random() < 0.35:
+        if rng.random() < 0.42:
+            self._mix_tokens(rng, case)
+        elif rng.random() < 0.35:
             offs = TOK_OFFSETS_32 + (TOK_OFFSETS_64 if case["tok_dtype"] == "int64" else [])
             _relabel(case, rng.choice(offs + ["neg"]))
         case["omit_defaults"] = rng.random() < 0.3
@@ -256,6 +281,54 @@ class C02(PropertyCheck):
                 for k in ("ins", "del", "sub"):
                     if rng.random() < 0.5:
                         case[k] = "1"
+
+    def _mix_tokens(self, rng, case):
+        """ref and hyp in (possibly) DIFFERENT integer dtypes, token ids that differ between the two
+        tensors by a multiple of 2^m (m = 8 / 16 / 32, at most the width of the narrower dtype).
+
+        Token ids are mathematical integers: 7 and 263 are different tokens whatever the dtypes of the
+        tensors that hold them. Every id t of the case gets a residue class mod 2^m (distinct ids ->
+        distinct classes, placed at the bottom, around the sign boundary 2^(m-1), at the top, or around the
+        wrap point of the m-bit range) and one representative of that class per tensor, within the tensor's
+        dtype range: the same integer in both tensors ("shared": the token still matches) or two different
+        ones ("aliased": ref holds r, hyp holds r + k * 2^m: they no longer match, and any code that
+        narrows / reinterprets one tensor to the other's dtype, or both to a common narrower one, merges
+        them again). The eos is an id like any other; the eos handed to the call is the representative of
+        either tensor (so it may lie outside the other tensor's dtype range, where nothing equals it)."""
+        i = self._mix_i = getattr(self, "_mix_i", -1) + 1
+        rd, hd = DTYPE_PAIRS[i % len(DTYPE_PAIRS)]
+        bits = min(DTYPES[rd][2], DTYPES[hd][2])
+        ms = [m for m in (8, 16, 32) if m <= bits]
+        m = bits if (rd != hd and bits < 64 and rng.random() < 0.6) else rng.choice(ms)
+        mod = 2 ** m
+        ids = sorted(set(_flat(case["ref"])) | set(_flat(case["hyp"]))
+                     | ({case["eos"]} if case["eos"] is not None else set()))
+        K = (max(ids) + 1) if ids else 1
+        start = rng.choice([0, mod // 2 - K // 2, mod - K, mod - K // 2, mod // 2 - K, rng.randrange(mod)])
+
+        def reps(r, dt):
+            lo, hi, _ = DTYPES[dt]
+            kmin, kmax = -((r - lo) // mod), (hi - r) // mod
+            ks = {k for k in (0, -1, 1, 2, -2, kmin, kmax, kmin + 1, kmax - 1, (kmin + kmax) // 2)
+                  if kmin <= k <= kmax}
+            return [r + k * mod for k in sorted(ks)]
+        fr, fh, n_alias = {}, {}, 0
+        for t in ids:
+            r = (start + t) % mod
+            a, b = reps(r, rd), reps(r, hd)
+            both = [v for v in a if v in b]
+            if both and rng.random() < 0.5:
+                fr[t] = fh[t] = rng.choice(both)
+            else:
+                fr[t], fh[t] = rng.choice(a), rng.choice(b)
+            n_alias += fr[t] != fh[t]
+        eos_alias = case["eos"] is not None and fr[case["eos"]] != fh[case["eos"]]
+        case["ref"], case["hyp"] = _map(case["ref"], fr.__getitem__), _map(case["hyp"], fh.__getitem__)
+        if case["eos"] is not None:
+            case["eos"] = rng.choice([fr, fh])[case["eos"]]
+        case.update(ref_dtype=rd, hyp_dtype=hd, tok_relabel="mixed", alias_mod=m,
+                    alias=("ids+eos" if eos_alias and n_alias > 1 else "eos" if eos_alias else
+                           "ids" if n_alias else "none"))
 
     def _exhaustive(self, rng, tier):
         """all pairs over {0,1}, lengths <= 3, eos-padded to R = H = 3 (eos = 2), ragged batches"""
@@ -286,6 +359,8 @@ class C02(PropertyCheck):
                     if kind == "prefix":
                         case["exclude_last"] = (i // chunk) % 4 == 1
                         case["padding"] = -100
+                    if (i // chunk + ci) % 4 == 3:
+                        self._mix_tokens(rng, case)
                     yield case
 
     def _mer_case(self, rng, maxlen, N=None, M=None):
@@ -612,6 +687,7 @@ class C02(PropertyCheck):
             n_er, n_mer, maxlen, n_sh, n_big, n_wide = 5000, 1500, 8, 1500, 150, 40
         else:  # search
             n_er, n_mer, maxlen, n_sh, n_big, n_wide = 6000, 800, 7, 300, 120, 30
+        self._mix_i = -1   # schedule of the (ref dtype, hyp dtype) pairs, see _mix_tokens
         yield from self._malformed(rng)
         for _ in range(n_sh):
             yield self._shapes_case(rng)
@@ -641,10 +717,11 @@ class C02(PropertyCheck):
 
     # ------------------------------------------------------------------ implementation
     @staticmethod
-    def _tensor(data, shape, case=None):
-        """token tensor with the case's dtype and memory layout"""
+    def _tensor(data, shape, case=None, which="ref"):
+        """token tensor with the case's dtype (of ref resp. hyp) and memory layout"""
         import torch
-        dt = torch.int32 if (case or {}).get("tok_dtype") == "int32" else torch.long
+        case = case or {}
+        dt = getattr(torch, case.get(which + "_dtype") or case.get("tok_dtype") or "int64")
         t = torch.tensor(data, dtype=dt).reshape(shape) if _numel(shape) else torch.zeros(shape, dtype=dt)
         return _strided(t, (case or {}).get("mem", "contig"))
 
@@ -689,12 +766,14 @@ class C02(PropertyCheck):
                 return self._run_mer(case)
             N, R, H, bf = case["N"], case["R"], case["H"], case["batch_first"]
             ref = self._tensor(case["ref"], (N, R) if bf else (R, N), case)
-            hyp = self._tensor(case["hyp"], (N, H) if bf else (H, N), case)
+            hyp = self._tensor(case["hyp"], (N, H) if bf else (H, N), case, "hyp")
             before = (ref.clone(), hyp.clone())
             out = self._er_call(case, ref, hyp)
-            return {"shape": list(out.shape), "dtype": str(out.dtype).replace("torch.", ""),
-                    "out": _fr(out.tolist()),
-                    "args_unchanged": bool(ref.equal(before[0]) and hyp.equal(before[1]))}
+            res = {"shape": list(out.shape), "dtype": str(out.dtype).replace("torch.", ""),
+                   "out": _fr(out.tolist()),
+                   "args_unchanged": bool(ref.equal(before[0]) and hyp.equal(before[1]))}
+            self._eos_wrap_observation(case, res)
+            return res
 
     def _run_mer(self, case):
         import torch
@@ -705,7 +784,7 @@ class C02(PropertyCheck):
             ref = self._tensor(case["ref"], (N, R) if bf else (R, N), case)
         else:
             ref = self._tensor(case["ref"], (N, M, R) if bf else (R, N, M), case)
-        hyp = self._tensor(case["hyp"], (N, M, H) if bf else (H, N, M), case)
+        hyp = self._tensor(case["hyp"], (N, M, H) if bf else (H, N, M), case, "hyp")
         lp = _strided(torch.tensor([[float(x) if x == "-inf" else float(F(x)) for x in row]
                                     for row in case["log_probs"]],
                                    dtype=getattr(torch, case.get("lp_dtype", "float32"))),
@@ -733,8 +812,61 @@ class C02(PropertyCheck):
                                   warn=False)
                 row.append(frac_str(e.item()))
             ers.append(row)
-        return {"shape": list(out.shape), "dtype": str(out.dtype).replace("torch.", ""),
-                "out": _fr(out.tolist()), "pair_ers": ers, "args_unchanged": unchanged}
+        res = {"shape": list(out.shape), "dtype": str(out.dtype).replace("torch.", ""),
+               "out": _fr(out.tolist()), "pair_ers": ers, "args_unchanged": unchanged}
+        self._eos_wrap_observation(case, res)
+        return res
+
+    def _eos_wrap_observation(self, case, res):
+        """Only when the eos lies outside the range of a token tensor's dtype: the result of the call on
+        the int64 batch in which every transcript is cut where its OWN tensor holds an id CONGRUENT to the
+        eos modulo 2^bits of that tensor's dtype (res['eos_wrap_out']; the tokens themselves are kept, the
+        cut is expressed with a fresh padding id as eos). It is not an expectation: it is the specific
+        wrong behaviour of the finding C02.eos_outside_token_dtype_wraps (comparing a narrow integer
+        tensor with a python scalar wraps the scalar), needed to recognise exactly that finding."""
+        import torch
+        eos = case.get("eos")
+        if eos is None:
+            return
+        wrapped, hit = {}, False
+        for which in ("ref", "hyp"):
+            lo, hi, bits = DTYPES[case.get(which + "_dtype") or case.get("tok_dtype") or "int64"]
+            wrapped[which] = w = (eos - lo) % 2 ** bits + lo
+            hit = hit or (w != eos and w in _flat(case[which]))
+        if not hit:
+            return
+        used = set(_flat(case["ref"])) | set(_flat(case["hyp"])) | {eos}
+        fresh = next(v for v in range(2 ** 62, 2 ** 62 + len(used) + 2) if v not in used)
+        alt = dict(case, eos=fresh, include_eos=False, ref_dtype="int64", hyp_dtype="int64", tok_dtype="int64")
+        changed = False
+        for which in ("ref", "hyp"):
+            if not _flat(case[which]):
+                continue
+            t = torch.tensor(case[which], dtype=torch.long)
+            ax = t.dim() - 1 if case["batch_first"] else 0
+            L = t.shape[ax]
+            is_eos = t == wrapped[which]
+            pos = torch.arange(L).reshape([L if d == ax else 1 for d in range(t.dim())])
+            first = torch.where(is_eos, pos, torch.tensor(L)).amin(ax, keepdim=True)
+            cut = first + (1 if case["include_eos"] else 0)
+            alt[which] = torch.where(pos >= cut, torch.tensor(fresh), t).tolist()
+            true_first = torch.where(t == eos, pos, torch.tensor(L)).amin(ax, keepdim=True)
+            changed = changed or bool((first != true_first).any()
+                                      and (torch.minimum(cut, torch.tensor(L))
+                                           != torch.minimum(true_first + (1 if case["include_eos"] else 0),
+                                                            torch.tensor(L))).any())
+        if not changed:
+            return   # the wrapped eos cuts no transcript anywhere else than the true eos: nothing to recognise
+        try:
+            res["eos_wrap_out"] = self.run_impl(alt)["out"]
+        except Exception as e:   # noqa: BLE001 - an observation only
+            res["eos_wrap_out"] = "error: " + type(e).__name__
+
+    def _eos_wrap_hit(self, case, impl, model):
+        """the implementation's result differs from the model's AND is exactly the result with the ids
+        congruent to an out-of-range eos taken for the eos"""
+        return (isinstance(impl, dict) and "eos_wrap_out" in impl and model is not None
+                and impl.get("out") == impl["eos_wrap_out"] and bool(self._differences(case, impl, model)))
 
     def _softmax(self, case):
         """softmax weights of the case's log_probs, computed independently of the library and of
@@ -822,6 +954,11 @@ class C02(PropertyCheck):
             return []
         if "error" in impl:
             return [f"implementation raised {impl['error']}: {impl.get('message')}"]
+        if self._eos_wrap_hit(case, impl, model):
+            return []   # reported by the predicate under its own signature
+        return self._differences(case, impl, model)
+
+    def _differences(self, case, impl, model):
         out = []
         if case["kind"] == "mer":
             a, b = _flat(impl["out"]), _flat(model["model"])
@@ -855,6 +992,11 @@ class C02(PropertyCheck):
             return [(f"{case['kind']} raised {impl['error']}: {impl.get('message')}", sig)]
         if model is None:
             return []
+        if self._eos_wrap_hit(case, impl, model):
+            return [(f"eos {case['eos']} lies outside the range of a token tensor's dtype (ref "
+                     f"{case.get('ref_dtype')}, hyp {case.get('hyp_dtype')}): ids of that tensor congruent to it "
+                     f"modulo 2^bits were taken for the eos; result {impl['out']}, expected "
+                     f"{model['model']}", "C02.eos_outside_token_dtype_wraps")]
         equal = F(case["ins"]) == F(case["del"]) == F(case["sub"])
         fails = []
         if impl.get("args_unchanged") is False:
@@ -1021,7 +1163,8 @@ class C02(PropertyCheck):
         if case["kind"] == "shapes":
             return "shapes:" + repr(sorted(case.items()))
         opt = tuple(case.get(k) for k in ("kind", "include_eos", "norm", "batch_first", "exclude_last",
-                                          "sub_avg", "reduction", "ref_dim", "entry", "mem", "lp_dtype"))
+                                          "sub_avg", "reduction", "ref_dim", "entry", "mem", "lp_dtype",
+                                          "ref_dtype", "hyp_dtype"))
         opt += (tuple(case.get("lp_classes", ())),)
         return repr((sorted(set(self._pairs(case))), case["ins"], case["del"], case["sub"], opt))
 
@@ -1042,8 +1185,9 @@ class C02(PropertyCheck):
         if case["kind"] == "prefix":
             t.append(f"exclude_last={case['exclude_last']}")
         t += ["warn=" + case.get("warn", "false"), "token_ids=" + _relabel_class(case.get("tok_relabel")),
-              "mem=" + case.get("mem", "contig"), "tok_dtype=" + case.get("tok_dtype", "int64"),
+              "mem=" + case.get("mem", "contig"),
               f"omit_defaults={bool(case.get('omit_defaults'))}"]
+        t += _dtype_tags(case)
         if case["kind"] == "mer":
             t += ["M=" + _size_class(case["M"]), f"ref_dim={case['ref_dim']}", f"sub_avg={case['sub_avg']}",
                   "reduction=" + case["reduction"], "lp_dtype=" + case.get("lp_dtype", "float32")]
@@ -1069,8 +1213,8 @@ class C02(PropertyCheck):
         if case["kind"] in ("malformed", "mer", "shapes"):
             if case["kind"] == "mer":
                 for k, v in (("reduction", "none"), ("sub_avg", False), ("norm", False), ("entry", "functional"),
-                             ("mem", "contig"), ("tok_dtype", "int64"), ("omit_defaults", False),
-                             ("warn", "false"), ("lp_dtype", "float32")):
+                             ("mem", "contig"), ("hyp_dtype", "int64"), ("ref_dtype", "int64"),
+                             ("omit_defaults", False), ("warn", "false"), ("lp_dtype", "float32")):
                     if case.get(k, v) != v:
                         c = dict(case)
                         c[k] = v
@@ -1106,6 +1250,9 @@ class C02(PropertyCheck):
         if N > 1:
             for n in range(N):
                 yield rebuild(rc[:n] + rc[n + 1:], hc[:n] + hc[n + 1:])
+        if R > 8 and H > 8:   # long sequences: halve both first
+            yield rebuild([c[:R // 2] for c in rc], [c[:H // 2] for c in hc])
+            yield rebuild([c[R // 2:] for c in rc], [c[H // 2:] for c in hc])
         if R > 0:
             yield rebuild([c[:-1] for c in rc], hc)
             yield rebuild([c[1:] for c in rc], hc)
@@ -1118,8 +1265,8 @@ class C02(PropertyCheck):
             c["tok_relabel"] = None
             yield c
         for k, v in (("entry", "functional"), ("batch_first", False), ("norm", False), ("include_eos", False),
-                     ("exclude_last", False), ("mem", "contig"), ("tok_dtype", "int64"),
-                     ("omit_defaults", False), ("warn", "false")):
+                     ("exclude_last", False), ("mem", "contig"), ("hyp_dtype", "int64"),
+                     ("ref_dtype", "int64"), ("omit_defaults", False), ("warn", "false")):
             if k in case and case[k] != v:
                 yield rebuild(rc, hc, **{k: v})
         if case["eos"] is not None and all(case["eos"] not in c for c in rc + hc):
@@ -1140,9 +1287,29 @@ def _relabel(case, how):
     case["tok_relabel"] = how
 
 
+def _dtype_tags(case):
+    rd = case.get("ref_dtype") or case.get("tok_dtype") or "int64"
+    hd = case.get("hyp_dtype") or case.get("tok_dtype") or "int64"
+    (rlo, rhi, rb), (hlo, hhi, hb) = DTYPES[rd], DTYPES[hd]
+    rel = "same" if rd == hd else "ref_narrower" if rb < hb else "ref_wider" if rb > hb else "same_width"
+    t = ["ref_dtype=" + rd, "hyp_dtype=" + hd, "dtypes=" + rel, f"dtype_pair={rd}/{hd}",
+         "alias=" + case.get("alias", "none")]
+    if case.get("alias_mod"):
+        t.append(f"alias_mod=2^{case['alias_mod']}")
+    if case.get("alias", "none") != "none":
+        t.append(f"alias:{rel}:2^{case['alias_mod']}")
+    eos = case.get("eos")
+    if eos is not None:
+        fr, fh = rlo <= eos <= rhi, hlo <= eos <= hhi
+        t.append("eos_fits=" + ("both" if fr and fh else "ref_only" if fr else "hyp_only" if fh else "neither"))
+    return t
+
+
 def _relabel_class(how):
     if how is None:
         return "small"
+    if how == "mixed":
+        return "residue classes mod 2^8/16/32 (see alias)"
     if how == "neg":
         return "negative"
     for name, lim in (("~2^8", 2 ** 9), ("~2^11", 2 ** 12), ("~2^15/16", 2 ** 17), ("~2^24", 2 ** 25),
